@@ -236,8 +236,9 @@ class BaseOdeModel(object):
                 # TODO: change this properly so that there are two different
                 # types of parameter input.  One is when we initialize and
                 # another when we set new ones
+                # (a copy: a rejected input must not leave half of itself behind)
                 if hasattr(self, "_parameters"):
-                    param_out = self._parameters
+                    param_out = dict(self._parameters)
 
                 # extra the key from the parameters dictionary
                 for inParam in parameters:
@@ -296,16 +297,19 @@ class BaseOdeModel(object):
                 raise Warning("Did not set the values of the parameters. " +
                               "Input was None.")
 
-        self._parameters = param_out
-
         # unroll the parameter values into the appropriate list
         # if self._paramValue is None or isinstance(self._paramValue, list):
         #     self._paramValue = dict()
-        self._paramValue = [0]*len(self._paramList)
+        # Nothing is published before every key has been resolved, so an
+        # input that is rejected changes neither the map nor the values.
+        param_value = [0]*len(self._paramList)
 
-        for key, val in self._parameters.items():
+        for key, val in param_out.items():
             index = self.get_param_index(key)
-            self._paramValue[index] = val
+            param_value[index] = val
+
+        self._parameters = param_out
+        self._paramValue = param_value
 
         self.set_sp()
 
